@@ -22,7 +22,7 @@
    Roaring bitmaps are modelled as duplicate-free id lists kept in ascending
    order (a canonical form, like the serialised bitmap). *)
 From Coq Require Import List NArith ZArith Bool.
-From Semadb Require Import Bytes U64 KV Model_C19 Model_C02.
+From Semadb Require Import Bytes U64 KV Value Obs Model_C19 Model_C01 Model_C02.
 Import ListNotations.
 Open Scope N_scope.
 
@@ -44,6 +44,8 @@ Definition fast_or (sets : list idset) : idset := fold_left set_union sets [].
 Definition fast_and (sets : list idset) : idset :=
   match sets with [] => [] | s :: r => fold_left set_inter r s end.
 Definition is_empty (s : idset) : bool := match s with [] => true | _ => false end.
+(* an id list denotes the set P: no duplicates, same members *)
+Definition same_set (r : idset) (P : N -> Prop) : Prop := NoDup r /\ forall n, In n r <-> P n.
 
 (* ------------------------- the bucket ------------------------------------- *)
 (* association list kept sorted by key: its key list IS the cursor order *)
@@ -270,3 +272,35 @@ End StrIndex.
 (* an ASCII lower-casing, for the witnesses *)
 Definition ascii_lower (s : bytes) : bytes :=
   map (fun c => if (65 <=? c) && (c <=? 90) then c + 32 else c) s.
+
+(* ------------------------- vocabulary of the statements ------------------- *)
+(* the key-level predicate an operator denotes *)
+Definition key_matches (op : N) (qk ek k : bytes) : bool :=
+  if op =? OP_PREFIX then is_prefix qk k
+  else cmp_matches op (lex_compare k qk) (lex_compare k ek).
+
+Definition op_scan (op : N) : Prop := op = 0 \/ op = 1 \/ op = 2 \/ op = 3 \/ op = 4 \/ op = 5 \/ op = 6 \/ op = 7.
+(* the operators the API accepts on integer and float indexes (models/search.go) *)
+Definition op_num (op : N) : Prop := op = 0 \/ op = 1 \/ op = 3 \/ op = 4 \/ op = 5 \/ op = 6 \/ op = 7.
+
+
+Definition any_str (s : bytes) : Prop := True.
+
+Definition hs_nz_two : list (list (@change N)) :=        (* -0.0 then, in a later batch, +0.0 *)
+  [[mkChange 1 None (Some two63)]; [mkChange 2 None (Some 0)]].
+Definition hs_nz_one : list (list (@change N)) :=        (* both in one batch *)
+  [[mkChange 1 None (Some two63); mkChange 2 None (Some 0)]].
+Definition bits_m1 : N := 13830554455654793216.         (* -1.0 *)
+
+
+Definition hs_fold : list (list (@change bytes)) := [[mkChange 1 None (Some [98])]].   (* "b" *)
+
+Definition field_int (p : bytes) (d : doc) : option Z :=
+  match prop_value p d with QFound (VInt x) => Some x | _ => None end.
+Definition field_f64 (p : bytes) (d : doc) : option N :=
+  match prop_value p d with QFound (VF64 x) => Some x | _ => None end.
+Definition field_str (p : bytes) (d : doc) : option bytes :=
+  match prop_value p d with QFound (VStr x) => Some x | _ => None end.
+Definition field_strs (p : bytes) (d : doc) : list bytes :=
+  match prop_value p d with QFound (VArr l) => str_elems l | _ => [] end.
+
